@@ -20,7 +20,8 @@ RICH = ('2012-12-12 ! "zp" "zn" #zt ^zl ; zi\n  zk: 7\n  zl: "zs"\n  zm: Assets:
         'option "zo" "zv"\n'
         '; zc\n\n'
         '2012-12-12 balance Assets:Z 7 ~ 7 ZZZ\n'
-        '2012-12-12 custom "zt" TRUE Assets:Z 7 ZZZ (1 + -2)\n')
+        '2012-12-12 custom "zt" TRUE Assets:Z 7 ZZZ (1 + -2)\n'
+        '2012-12-13 * "last"\n  Assets:Last 7 ZZZ\n    zk: 7')      # no final line break: the last nodes end at the end of the store
 
 _OTHER: list = []
 
@@ -29,14 +30,12 @@ def other_doc() -> Any:
     return docs.P().parse(RICH, M.File)
 
 
-def find_attached(root: Any, cls_name: str, avoid: set[int], *, skip: int = 0) -> Optional[Any]:
-    k = 0
-    for _, m in tree.walk(root):
-        if type(m).__name__ == cls_name and id(m) not in avoid and not isinstance(m, R.Repeated):
-            if k == skip:
-                return m
-            k += 1
-    return None
+def find_attached(root: Any, cls_name: str, avoid: set[int], *, last: bool = False) -> Optional[Any]:
+    found = [m for _, m in tree.walk(root)
+             if type(m).__name__ == cls_name and id(m) not in avoid and not isinstance(m, R.Repeated)]
+    if not found:
+        return None
+    return found[-1] if last else found[0]
 
 
 def donor_classes(e: Any) -> list[str]:
@@ -49,21 +48,21 @@ def attached_variants(op: list) -> list[list]:
     out = []
     kind = op[0]
     if kind in ('setnode', 'setval') and donor_classes(op[3]):
-        for src in ('same', 'other'):
+        for src in ('same', 'other', 'other-last'):
             out.append(op[:3] + [['a', op[3][1], src]])
     elif kind == 'seq':
         meth = op[3]
         if meth in ('append',) and donor_classes(op[4]):
-            for src in ('same', 'other'):
+            for src in ('same', 'other', 'other-last'):
                 out.append(op[:4] + [['a', op[4][1], src]])
         elif meth in ('insert', 'set') and donor_classes(op[5]):
-            for src in ('same', 'other'):
+            for src in ('same', 'other', 'other-last'):
                 out.append(op[:5] + [['a', op[5][1], src]])
         elif meth in ('extend', 'setslice'):
             batch = op[-1]
             if batch and all(donor_classes(e) for e in batch):
                 for pos in range(len(batch)):
-                    for src in ('same', 'other'):
+                    for src in ('same', 'other', 'other-last'):
                         b2 = [list(e) for e in batch]
                         b2[pos] = ['a', batch[pos][1], src]
                         out.append(op[:-1] + [b2])
@@ -72,10 +71,10 @@ def attached_variants(op: list) -> list[list]:
                     b2[-1] = ['dup', 0]
                     out.append(op[:-1] + [b2])
     elif kind == 'map' and op[3] == 'set' and donor_classes(op[5]):
-        for src in ('same', 'other'):
+        for src in ('same', 'other', 'other-last'):
             out.append(op[:5] + [['a', op[5][1], src]])
     elif kind == 'numop' and donor_classes(op[3]):
-        for src in ('same', 'other'):
+        for src in ('same', 'other', 'other-last'):
             out.append(op[:3] + [['a', op[3][1], src]])
     return out
 
@@ -177,11 +176,12 @@ def run_one(case: dict, res: core.CaseResult) -> None:
             if e[0] == 'dup':
                 return made[e[1]]
             src = root if e[2] == 'same' else other
+            last = e[2] == 'other-last'      # a node that ends exactly at the end of its store
             a = set(avoid)
             if target is not None:
                 # never offer the target itself or anything inside it (replacing an element by itself is not a re-insertion)
                 a |= {id(x) for _, x in tree.walk(target)}
-            node = find_attached(src, e[1], a)
+            node = find_attached(src, e[1], a, last=last)
             if node is None and e[2] == 'same':
                 node = find_attached(other, e[1], a)
             if node is None:
@@ -344,6 +344,12 @@ def main(run: core.Run) -> None:
                     continue
                 seen.add(k)
                 depth1.append({'text': c['text'], 'mode': True, 'prefix': [op], 'level': 'basic', 'claims': False})
+    # documents without a final line break (their last nodes end at the end of the store) and the cost forms of C09
+    # (the documented rejections of the per/total/currency group are refusals too)
+    from . import c09
+    items += [dict(c, level='basic') for c in docexp.corpus(docs.L_EDIT, 2, depth=1, variants=(('lf', False),))]
+    forms = c09.cost_forms()
+    items += [{'text': c09.cost_doc(f), 'mode': True, 'level': 'basic', 'claims': False} for f in (forms if tier != 'quick' else forms[::3])]
     run.run_cases(run_case, items, 'refusals from parsed states', chunk=1)
     if depth1:
         run.run_cases(run_case, depth1, 'refusals from depth-1 states', chunk=4)
